@@ -15,7 +15,7 @@ RULE = ('pexpect.run() with its spawn class bound to the simulated pty child, ag
         'Added later: the same pattern listed twice with different responses (first wins), prompts written in two pieces with a pause '
         'shorter or longer than the timeout inside them (TIMEOUT ticks in between), spawn options passed through run(**kwargs) '
         '(searchwindowsize with marker events only, use_poll), extra_args (must reach every callback in the state dictionary), '
-        'the runu() alias. Non-trivial: >= 1 event fired or >= 1 read; distinct by trace digest')
+        'the runu() alias. Tenth round: the events object given to run() keeps its entries (C12.events_mutated). Non-trivial: >= 1 event fired or >= 1 read; distinct by trace digest')
 
 ASSUME = ['a non-stopping callback on the EOF key makes run() spin by design (EOF repeats); generated EOF callbacks stop',
           'real fork/exec is replaced at the ptyprocess seam of pexpect.pty_spawn (and at spawn._spawnpty)']
